@@ -87,9 +87,14 @@ def worker(case):
         L = []
         for ln in case["lines"]:
             if ln[0] == "X":
-                L.append("X 0 %d %d" % (ln[1], ln[2]))
+                mode = ln[3] if len(ln) > 3 else 0
+                L.append("X 0 %d %d %d %d %s" % (ln[1], ln[2], mode, p.hash_type, p.header_digest.hex()))
             else:
+                # every patched image through the three ways of opening a file: zck_init_read; lead + header step by step;
+                # the same with the header pinned to the GENUINE checksum of the unpatched file
                 L.append("P %s 0 %s o" % (ln[1], patch_str(ln[2])))
+                L.append("P %s+adv 0 %s l h" % (ln[1], patch_str(ln[2])))
+                L.append("P %s+pin 0 %s T%d D%s l h" % (ln[1], patch_str(ln[2]), p.hash_type, p.header_digest.hex().encode().hex()))
         open(os.path.join(cdir, "cases"), "w").write("\n".join(L) + "\n")
         r = core.run_proc([case["bin"], "cases", "out", "marker", "f0.zck"], cdir, cpu=120, wall=1200)
         if r.timed_out and not r.cpu_exceeded:
@@ -118,24 +123,28 @@ def worker(case):
                 continue
             if t[0] == "S":
                 pos, val = int(t[2]), int(t[3])
+                mode = ["init_read", "lead+header", "pinned"][int(t[4])] if len(t) > 4 else "init_read"
                 reg = region_of(p, pos)
-                viols.append(("c06:opened-with-substituted-byte:%s" % reg, "byte %d (%s) %#x -> %#x still opens" % (pos, reg, data[pos], val)))
+                viols.append(("c06:opened-with-substituted-byte:%s%s" % (reg, "" if mode == "init_read" else ":" + mode), "byte %d (%s) %#x -> %#x still opens (%s)" % (pos, reg, data[pos], val, mode)))
             elif t[0] == "XEND":
                 stats["evaluations"] += int(t[2])
                 stats["substitution_opens"] = stats.get("substitution_opens", 0) + int(t[2])
             elif t[0] == "R":
-                ln = pmap[t[1]]
-                rc = int(t[2])
+                pid, _, how = t[1].partition("+")
+                ln = pmap[pid]
+                rcs = [int(x) for x in t[2].split(",")]
+                rc = 1 if all(x == 1 for x in rcs) else 0   # "+pin": the two setters get genuine values and succeed
                 stats["evaluations"] += 1
+                stats["opens_" + (how or "init_read")] = stats.get("opens_" + (how or "init_read"), 0) + 1
                 img = apply_patches(data, ln[2])
-                kind = ln[3]
+                kind = ln[3] + (":" + {"adv": "lead+header", "pin": "pinned"}[how] if how else "")
                 refok = ref_header_ok(img)
                 same_header = img[5:p.header_len] == data[5:p.header_len] and img[:5] in (zckref.MAGIC_FULL, zckref.MAGIC_HDR) and len(img) >= p.header_len
                 if rc == 1 and not refok:
                     viols.append(("c06:opened-although-reference-checksum-differs:%s" % kind, "patch %s opens; reference: header checksum/structure invalid" % patch_str(ln[2])))
                 elif rc == 1 and not same_header:
                     viols.append(("c06:opened-with-different-header-bytes:%s" % kind, "patch %s opens although header bytes differ" % patch_str(ln[2])))
-                elif rc != 1 and same_header and kind in ("control", "magic-swap"):
+                elif rc != 1 and same_header and ln[3] in ("control", "magic-swap"):
                     viols.append(("c06:valid-header-rejected:%s" % kind, "patch %s rejected although all header bytes are authentic" % patch_str(ln[2])))
                 nontriv.add(core.h8([case["base"], ln[2]]))
                 stats["patched_" + kind] = stats.get("patched_" + kind, 0) + 1
@@ -158,8 +167,10 @@ class C06(core.Check):
     prop = "C06"
     flavours = ["asan"]
     rule = ("sample files (library- and reference-written; 4 lead checksum types, flags, dict/no dict, optional elements, detached headers) x EVERY header "
-            "position x all 255 other byte values through zck_init_read (exhaustive); plus sampled single-byte insertions/deletions with the header-size "
-            "field adjusted, truncations inside the header, stored-checksum transplants, identifier swap and untouched controls. "
+            "position x all 255 other byte values through zck_init_read (exhaustive); the same through the two other ways of opening (zck_read_lead + zck_read_header "
+            "step by step; the same with the header pinned to the file's genuine checksum) for every lead byte of every sample and every header byte of the first "
+            "samples; plus patched images through all three ways: single-byte insertions/deletions with the header-size field adjusted, truncations inside the "
+            "header, every integer field re-encoded in a longer form with the same value, stored-checksum transplants, identifier swap and untouched controls. "
             "distinct = (file, position) for substitutions, (file, patch) otherwise")
     assumptions = ["independent header checksum recomputed with hashlib (zckref.parse) for every patched image", "hash collisions out of scope"]
     worker = staticmethod(worker)
@@ -219,6 +230,15 @@ class C06(core.Check):
             step = max(8, hl // 12)
             for lo in range(0, hl, step):
                 out.append({"base": s["name"], "data": core.b64(data), "bin": ctx["bin"], "lines": [["X", lo, min(hl, lo + step)]], "lines_id": "X%d" % lo})
+            # the other two ways of opening (lead + header step by step; header pinned to the genuine checksum): the lead of every sample,
+            # the whole header of the first few (quick) / of all (thorough)
+            full = (not self.quick) or self.counters.get("sample_files", 0) <= 3
+            for mode in (1, 2):
+                if full:
+                    for lo in range(0, hl, step):
+                        out.append({"base": s["name"], "data": core.b64(data), "bin": ctx["bin"], "lines": [["X", lo, min(hl, lo + step), mode]], "lines_id": "X%d/m%d" % (lo, mode)})
+                else:
+                    out.append({"base": s["name"], "data": core.b64(data), "bin": ctx["bin"], "lines": [["X", 0, p.lead_len, mode]], "lines_id": "X0/m%d" % mode})
             # patched images
             lines = []
             k = 0
@@ -250,6 +270,24 @@ class C06(core.Check):
                     P(pt, kind.split("+")[0])
             for _ in range(10 if self.quick else 60):
                 P([("t", r.randrange(5, hl))], "truncate")
+            # the same VALUES in other BYTES: every integer field re-encoded one and three bytes longer (non-minimal form);
+            # fields behind the lead grow the header, so the header-size field follows
+            for fname, (fo, fn_) in sorted(p.off.items()):
+                if fname in ("header_digest", "data_digest"):
+                    continue
+                try:
+                    val, used = zckref.ci_decode(data, fo)
+                except zckref.Invalid:
+                    continue
+                for pad in (1, 3):
+                    if used + pad > 10:
+                        continue
+                    pt = [("d", fo, used), ("i", fo, zckref.ci_encode(val, pad=pad))]
+                    P(pt, "reencode-int")
+                    if fo >= p.lead_len and fname != "header_size":
+                        enc = zckref.ci_encode(p.header_size + pad)
+                        if len(enc) <= hs_n:
+                            P(pt + [("s", hs_off, zckref.ci_encode(p.header_size + pad, pad=hs_n - len(enc)))], "reencode-int+size")
             # checksum transplant from another sample with the same lead checksum type
             for o in samples:
                 if o is s:
